@@ -385,6 +385,56 @@ def a10(ctx, rid):
         ctx.ok(rid, 'headers-only-grow|scan', '', '%d mutable accesses to the header map, none followed by an element removal' % n, queries=n)
 
 
+def a11(ctx, rid):
+    """records_count_in_active_blob is None exactly when there is no active blob: every Some answer is produced on the Some edge
+    of a test of the active-blob slot (or is a projection of that slot), never taken from a list that also describes closed
+    blobs (after try_close_active_blob the last entry of the detailed counts is a closed blob)"""
+    prog = ctx.prog
+    n = 0
+    for f in prog.fns.values():
+        root = prog.fns[f.id].root
+        if not root.endswith('::records_count_in_active_blob') or not f.is_coroutine or 'Storage' in root:
+            continue
+        n += 1
+        key = 'some-only-with-active-blob|%s' % root
+        slot_edges = []
+        for i in f.reachable():
+            t = f.blocks[i]['t']
+            if t['k'] != 'switch':
+                continue
+            for (bb, si, kind, r) in f.defs().get(op_local(t['o']), []):
+                if kind == 'assign' and r['k'] == 'discr':
+                    ogs = core.origins(f, {'c': r['p']}, stop_fields=True)
+                    if ogs and all(o.kind == 'field' and o.data[1] == 'active_blob' for o in ogs):
+                        slot_edges += [tg for v, tg in t['vals'] if v == 1]
+        bad = None
+        for (bb, si, kind, r) in f.defs().get(0, []):
+            if bb not in f.reachable():
+                continue
+            if kind == 'assign' and r['k'] == 'agg' and r.get('adt') == 'std::option::Option':
+                if r.get('variant') == 'Some' and (not slot_edges or bb in f.reach_from([0], avoid_enter=slot_edges)):
+                    bad = (bb, 'a Some answer is produced on a path that did not see an active blob')
+            elif kind == 'assign' and r['k'] == 'use':
+                leaf = {x for x in core.field_leaf_names(f, r['o'])}
+                if leaf != {'active_blob'}:
+                    bad = (bb, 'the answer is copied from something other than the active-blob slot')
+            elif kind == 'call':
+                ogs = core.origins(f, 0)
+                leafs = set()
+                for o in ogs:
+                    if o.kind == 'call':
+                        for a in o.data.args[:1]:
+                            leafs |= {x for x in core.field_leaf_names(o.fn, a)}
+                if leafs != {'active_blob'}:
+                    bad = (bb, 'the answer is computed by `%s` from %s, not from the active-blob slot' % (r.name, sorted(str(x) for x in leafs)))
+        if bad:
+            ctx.bad(rid, key, f.where(bad[0]), bad[1] + ': without an active blob (after try_close_active_blob, after init_lazy) the call reports the count of a closed blob instead of None')
+        else:
+            ctx.ok(rid, key, f.where(), 'Some only on the Some edge of the active-blob slot')
+    if n < 1:
+        raise core.AnchorLost('records_count_in_active_blob bodies: %d' % n)
+
+
 RULES = [
     Rule('C15.A1', 'every header insertion is counted exactly once; the loader seeds the count from the index file, not from the key map', a1, 5),
     Rule('C15.A2', 'public accessors of the closed-blob vector agree that empty slots are absent', a2, 4),
@@ -395,5 +445,6 @@ RULES = [
     Rule('C15.A8', 'an assignment into the active slot never overwrites a live blob (C04.T7 instances)', a8, 4),
     Rule('C15.A9', 'a count is taken from an index file only after the full validation gate (C03.I2 instances)', a9, 2),
     Rule('C15.A10', 'per-key header vectors of the in-memory index only grow or are cleared as a whole', a10, 1),
+    Rule('C15.A11', 'records_count_in_active_blob answers Some only where it saw an active blob', a11, 1),
     Rule('C15.A6', 'next_blob_id is fed by the ids of opened, failed and quarantined blobs (C07.H6/H6d instances)', a6, 4),
 ]
